@@ -578,6 +578,29 @@ func c14(r *Run) {
 	r.rule("C14.R1", "K12", "the bandwidth estimate counts each action and the auth with tag and length prefix", 2)
 	r.rule("C14.R2", "K12", "estimator and meter use the same rule getters / compute calls", 3)
 	r.rule("C14.R3", "K5", "generated MaxFee = MulSum(unit prices, estimate)", 2)
+	// R5: the estimator meters every declared key: Keys.ChunkSizes yields one entry per key (the meter charges per-key
+	// costs for every declared key, also for keys that allow no value chunks)
+	r.rule("C14.R5", "K7", "Keys.ChunkSizes returns the chunk count of every key, failing only on an undecodable key", 1)
+	if cs := r.fn(w, "C14.R5", "("+H+"/state.Keys).ChunkSizes"); cs != nil {
+		ap := findEffects(cs, "call builtin.append(phi(*), [keys.DecodeChunks([]byte(next(range(p0))#1))#0])")
+		okk := len(ap) == 1
+		if okk {
+			for _, c := range ap[0].Conds() {
+				if !(isLoopCond(c) || c == "keys.DecodeChunks([]byte(next(range(p0))#1))#1") {
+					okk = false
+				}
+			}
+			if h, _ := innermostLoop(ap[0].Ins.Block()); h != nil && len(h.Succs) == 2 {
+				hdr := func(i ssa.Instruction) bool { return i.Block() == h && instrIndex(i) == 0 }
+				if skip, _ := pathExists(point{h.Succs[0], 0}, hdr, isInstr(ap[0].Ins), nil); skip {
+					okk = false
+				}
+			} else {
+				okk = false
+			}
+		}
+		r.check(okk, "C14.R5", "Keys.ChunkSizes:one-entry-per-key", w.rel(cs.Pos()), "", "Keys.ChunkSizes leaves some declared keys out: the estimate misses their per-key read/allocate/write units, which the meter charges")
+	}
 	r.rule("C14.R4", "K12", "auth factories report the scheme's size and compute units", 3)
 	eu := r.fn(w, "C14.R1", pkgChain+".EstimateUnits")
 	un := w.Fn(nmUnits)
